@@ -71,6 +71,9 @@ pub struct BuildScript {
     pub store: Option<TTable>,
     pub build_sboms: Vec<SbomSpec>,
     pub launch_sboms: Vec<SbomSpec>,
+    /// the author adds the launch SBOMs to the result before the build SBOMs
+    #[serde(default)]
+    pub launch_sboms_first: bool,
 }
 
 #[derive(Clone, Debug, PartialEq, Serialize, Deserialize)]
